@@ -111,7 +111,10 @@ class _MaxRequestBytesMiddleware:
         """Reject oversized inline request bodies with HTTP 413."""
         path = req.path
         for prefix in self._exempt_prefixes:
-            if path == prefix or path.startswith(prefix + "/"):
+            # Exact match: the entries name single endpoints ({prefix}/health).  A
+            # subtree match also exempted {prefix}/health/init and /exchange -- the
+            # stream routes of an RPC method named "health" -- from the request cap.
+            if path == prefix:
                 return
         cl = req.content_length
         if cl is not None and cl > self._max_bytes:
